@@ -121,6 +121,36 @@ def sweep_iter(tier, seed):
           yield dict(N=n, batch_size=b, num_steps=k, skip_shuffle=skip, seed=(seed + n * 31 + b) % 1000)
 
 
+def check_sliced(inp):
+  """A slice of a client dataset (any start / stop / step, after the parent was measured) is a client dataset: its N is
+  the number of rows the slice holds, and the shuffled stream covers exactly those rows."""
+  size, sl, b = inp['size'], slice(*inp['slice']), inp['batch_size']
+  parent = ds(size)
+  len(parent)
+  list(parent.shuffle_repeat_batch(batch_size=2, num_epochs=1, seed=0))
+  d = parent[sl]
+  rows = np.arange(size, dtype=np.int64)[sl]
+  if len(d) != len(rows):
+    return f'len(dataset[{inp["slice"]}]) of a {size}-example dataset is {len(d)}; the slice holds {len(rows)} examples'
+  if len(rows) == 0:
+    return None
+  got = [x['x'] for x in d.shuffle_repeat_batch(batch_size=b, num_epochs=1, seed=3)]
+  want_n = -(-len(rows) // b)
+  if len(got) != want_n or any(len(x) != b for x in got):
+    return (f'dataset[{inp["slice"]}] ({len(rows)} examples), batch_size {b}, one epoch: {len(got)} batches of sizes '
+            f'{[len(x) for x in got]}, documented {want_n} batches of {b}')
+  stream = np.concatenate(got)
+  if sorted(stream[:len(rows)].tolist()) != sorted(rows.tolist()):
+    return f'dataset[{inp["slice"]}]: the first window {stream[:len(rows)].tolist()} is not a permutation of its rows {rows.tolist()}'
+
+
+def sweep_sliced(tier, seed):
+  for size, sl in ((7, (None, None, 2)), (7, (1, None, 2)), (8, (None, None, 3)), (9, (2, 8, 4)), (6, (1, 5, None)), (5, (None, None, -1)),
+                   (5, (4, 0, -2)), (6, (3, 3, None))):
+    for b in (1, 2, 3):
+      yield dict(size=size, slice=list(sl), batch_size=b)
+
+
 def check_entry(inp):
   """ClientDataset.shuffle_repeat_batch(hparams, **overrides): the number of batches is the documented function of the
   EFFECTIVE hyper-parameters, i.e. hparams with every keyword override applied - None and other falsy values included."""
@@ -150,7 +180,8 @@ def sweep_entry(tier, seed):
         yield dict(N=n, batch_size=b, hp_epochs=hp_e, hp_steps=hp_s, hp_drop=True, override=ov)
 
 
-CHECKERS = {'steps': (check_steps, sweep_steps), 'iter': (check_iter, sweep_iter), 'entry': (check_entry, sweep_entry)}
+CHECKERS = {'steps': (check_steps, sweep_steps), 'iter': (check_iter, sweep_iter), 'entry': (check_entry, sweep_entry),
+            'sliced': (check_sliced, sweep_sliced)}
 
 if __name__ == '__main__':
   sys.exit(common.main(CHECKERS))
